@@ -115,7 +115,6 @@ func (k *checker) next() bool {
 			k.stop = true
 			return false
 		}
-		k.c.Journal("parse/"+k.phase, map[string]any{"phase": k.phase, "from_index": i})
 	}
 	return true
 }
@@ -179,6 +178,7 @@ func (k *checker) check(kind string, cs *Case) {
 		return
 	}
 	c.Eval()
+	c.Journal("parse/"+kind, cs) // a fatal error or a hang of the parser is attributed to this input
 	var p *profile.Profile
 	var err error
 	a0 := k.allocs()
@@ -247,6 +247,7 @@ func (k *checker) check(kind string, cs *Case) {
 		}
 	}
 	// Downstream totality on the very object the parser returned.
+	c.Journal("downstream/"+kind, cs)
 	c.Guard("string", cs, func() { _ = p.String() })
 	c.Guard("write", cs, func() {
 		var b bytes.Buffer
@@ -341,7 +342,6 @@ func (k *checker) report(cs *Case, p0 *profile.Profile) {
 			}
 		}
 	}
-	c.Journal("parse/"+k.phase, map[string]any{"phase": k.phase, "after_index": k.idx})
 }
 
 func fetchPredicate(p *profile.Profile) string {
